@@ -7,6 +7,7 @@ import fractions
 import z3
 
 from . import paths
+from . import symtime
 from .paths import Abort
 from .symtime import T, B, TArr, BArr, Tok, NPShim, After, INF, asT, _key, mk, K
 
@@ -555,6 +556,7 @@ class FilterHarness:
     # -- one execution -------------------------------------------------------------------
     def build_inputs(self):
         self.log = []
+        symtime.DIV_SINK[0] = self.log
         self.fuel = Fuel(self.loop_fuel)
         self.fuel_calls = Fuel(60 * (self.loop_fuel + 1) * (len(self.sensors) + 1))
         ex = paths.CUR
